@@ -169,6 +169,11 @@ def execute(mod, case):
 
 def _settings(n, shrink=False):
     from hypothesis import HealthCheck, Phase, settings
+    import hypothesis.internal.conjecture.engine as engine
+
+    # A case is a whole schema plus a history: give one test case 8x the default entropy budget, otherwise
+    # large cases are silently discarded as overruns and the distribution collapses towards tiny schemas.
+    engine.BUFFER_SIZE = 64 * 1024
 
     phases = [Phase.generate, Phase.shrink] if shrink else [Phase.generate]
     return settings(
